@@ -256,6 +256,19 @@ func runC15Enum(rc *runCtx) *RunResult {
 					return res
 				}
 			}
+			// a torn read right behind a forged window: the reader fails after delivering the
+			// forged bytes, so the decoder sees half of a field (its own scratch holds the rest
+			// from the previous field)
+			for _, x := range []uint64{1<<64 - 1, 1<<63 - 1} {
+				f := simio.Fault{Kind: "forge64", Off: off, Arg: x}
+				for _, tail := range []int{7, 8} {
+					tp := sh.plan
+					tp.FailAt = off + tail
+					if !try("forge64+readerror", simio.Apply(enc, f), fmt.Sprintf("%s and a read error at offset %d", f.String(), off+tail), tp, sh.br, sh.name) {
+						return res
+					}
+				}
+			}
 			// hard read error at this offset
 			pl := sh.plan
 			pl.FailAt = off
